@@ -11,10 +11,13 @@ CHECK = {
  'rule': '2 fans: all 7 start delays {0,1ms,3ms,0.7s,1.4s,20s, after the previous fan finished} x 3x3 settle models; 3 fans (quick: 4 delays^2 x 2^3 models; thorough: 7^2 x 3^3) and 4 fans '
          '(thorough: 4^3 x 2^4); every fan needs analysis: nothing stored (sweep + RPM-curve measurement, about 9 virtual minutes), nothing stored with a configured pwmMap (measurement only) or only the RPM curve stored (sweep only); mixed kinds on steady-settle schedules. Additionally a shutdown request (context cancelled after 4/8/12/20 s) while one fan is analysed and others are queued (short analyses, 6 kind assignments x 3 start delays): a queued fan still waits for its turn. With the option false the analysis intervals must be pairwise '
          'disjoint and every fan must finish; with the option true a sample of the same schedules is run to show overlap is observable (non-vacuity). '
-         'distinct_nontrivial = distinct (schedule, interval vector) outcomes. An already analysed bystander fan (everything stored) started 0/1 ms/3 s/8 s after the others must not disturb the queue (6 kind assignments).',
+         'distinct_nontrivial = distinct (schedule, interval vector) outcomes. An already analysed bystander fan (everything stored) started 0/1 ms/3 s/8 s after the others must not disturb the queue (6 kind assignments). hwmon fans whose PWM value cannot be read back (no sweep, measurement only) are a fifth fan kind in the mixed-kind schedules. '
+         'Second run (internal/configuration TestVX_C16option): every way of stating the option - file value {absent,true,false} x 3 spellings of the key x first/last entry x environment variable {unset,false,true,0,1,FALSE,True} x '
+         '{no earlier load, earlier load of true/false in the same process} - loaded through the real start-up path (InitConfig, readInConfig, LoadConfig); oracle: environment > file > default true reaches CurrentConfig.',
  'assumptions': COMMON_ASSUME + ['vsync.Mutex (Cond-based) replaces sync.Mutex in the controller package so that lock waits are durable blocks for the virtual clock',
                                    'goroutines are interleaved at blocking points only (sleeps, lock waits); the initialisation code sleeps between all its steps'],
  'level_text': 'complete enumeration of a finite schedule space on the real code in virtual time; mutual exclusion checked on every schedule',
  'level_note': 'bounded: listed delays and settle models, up to 4 fans; pre-emption inside a non-blocking code section is not enumerated',
- 'runs': [{'pkg': 'internal/controller', 'test': 'TestVX_C16', 'shards_quick': 16, 'shards_thorough': 16}],
+ 'runs': [{'pkg': 'internal/controller', 'test': 'TestVX_C16', 'shards_quick': 16, 'shards_thorough': 16},
+          {'pkg': 'internal/configuration', 'test': 'TestVX_C16option', 'shards_quick': 1, 'shards_thorough': 1}],
 }
